@@ -67,6 +67,10 @@ class TaskType:
 
         while len(stack) > 0:
             curr_identifier = stack.pop()
+            if curr_identifier in visited:
+                # A task shared by several dependents may be on the stack
+                # more than once; visit it only once.
+                continue
             visited.add(curr_identifier)
             task = ctx.task_index.get_task(curr_identifier)
             visitor(task)
